@@ -108,7 +108,7 @@ def _load_hooks():
     here = os.path.dirname(os.path.abspath(__file__))
     for f in sorted(glob.glob(os.path.join(here, "extract_*.py"))):
         name = os.path.basename(f)[:-3]
-        mod = importlib.import_module(f"vlib.{name}" if __package__ else name)
+        mod = importlib.import_module(f"vlib.{name}")
         if mod.hook not in EXTRA:
             EXTRA.append(mod.hook)
 
@@ -174,5 +174,6 @@ def generate():
 
 if __name__ == "__main__":
     sys.path.insert(0, HERE)
-    c, ch = generate()
+    from vlib import extract as _E  # run as a package member so hooks can `from . import extract`
+    c, ch = _E.generate()
     print(f"extracted {len(c)} constants/tables; changed: {ch}")
